@@ -72,8 +72,16 @@ class Built:
             insts = []
             for i in fr:
                 pts = np.array([[p[0] / 4.0, p[1] / 4.0] if p[2] else [np.nan, np.nan] for p in i["p"]], dtype="float64")
-                insts.append(predicted_instance(pts, skeleton=self.skeleton) if i["k"] == "p"
-                             else sio.Instance.from_numpy(pts, skeleton=self.skeleton))
+                inst = (predicted_instance(pts, skeleton=self.skeleton) if i["k"] == "p"
+                        else sio.Instance.from_numpy(pts, skeleton=self.skeleton))
+                if seed % 2 == 1:
+                    # every second label set: a missing node keeps STALE coordinates in the file, marked not visible (what the
+                    # SLEAP GUI writes when a node is hidden) - it is just as missing as a NaN node (Instance.numpy() says NaN)
+                    for n, p_ in enumerate(i["p"]):
+                        if not p_[2]:
+                            inst.points["xy"][n] = (hw[1] / 2.0 + 2 * n, hw[0] / 2.0 - n)
+                            inst.points["visible"][n] = False
+                insts.append(inst)
             self.orig.append(insts)
             lfs.append(sio.LabeledFrame(video=vids[v], frame_idx=cnt[v], instances=list(insts)))
             self.pos[(v, cnt[v])] = f + 1
